@@ -751,7 +751,11 @@ class VarsManager(object):
         for name in self.complex_vars:
             self.std_polar(name)
 
-    def standard_complex(self):
+    def standard_complex(self, skip=()):
+        """
+        :param skip: names of real components that must keep their value (e.g. bounded ones whose
+            bound is not installed in ``bnd_dic`` at the moment)
+        """
         for k, v in self.complex_vars.items():
             ## TODO complex with constrains
             if isinstance(v, list):
@@ -765,6 +769,8 @@ class VarsManager(object):
             if k + "r" in self.bnd_dic:
                 has_constrains = True
             if k + "i" in self.bnd_dic:
+                has_constrains = True
+            if k + "r" in skip or k + "i" in skip:
                 has_constrains = True
             if has_constrains:
                 continue
